@@ -410,6 +410,9 @@ class BuiltinMixin:
         yield st, TupleV(items)
 
     def bi_set(self, st, args, kwargs):
+        if args and isinstance(args[0], Opaque) and args[0].typ in ("keyed_keys", "sym_seq"):
+            yield self.make_symset(st, self.fresh("keyset"))
+            return
         if not args and getattr(self, "symbolic_sets", False):
             # an empty set that will hold symbolic ints: characteristic array, everything absent
             s1, ref = self.make_symset(st, self.fresh("set"))
@@ -459,6 +462,10 @@ class BuiltinMixin:
         yield st.alloc(Obj(None, "dict", None, items))
 
     def bi_sum(self, st, args, kwargs):
+        if isinstance(args[0], Opaque) and args[0].typ == "sym_seq":
+            n = self.T.const(self.fresh("count"))
+            yield st.assume(n >= self.intval(0)), n      # used for `sum(1 for ...)` counts only
+            return
         items = self.iter_items(st, args[0])
         if items is None:
             raise Unsupported("sum over non-meta iterable")
@@ -960,6 +967,12 @@ class BuiltinMixin:
                 continue
             if isinstance(it, Opaque) and it.typ == "keyed_items" and kind == "dict":
                 yield from self.keyed_dictcomp(e, s1, it)
+                continue
+            if isinstance(it, Opaque) and it.typ in ("keyed_values", "keyed_keys", "keyed_items") and kind == "list":
+                # a generator / list over the entries of a symbolic-key map: an unknown number of unknown elements
+                self.used_assumptions.add("comprehensions over symbolic-key maps yield an arbitrary sequence "
+                                          "(their element-wise content is not modelled)")
+                yield s1, Opaque("sym_seq")
                 continue
             items = self.iter_items(s1, it)
             if items is None:
